@@ -142,6 +142,7 @@ func closeOverlap(c periodCase) bool {
 func noPanic(f func()) (err error) {
 	defer func() {
 		if r := recover(); r != nil {
+			lib.RethrowRapid(r)
 			err = fmt.Errorf("panic: %v", r)
 		}
 	}()
